@@ -200,17 +200,17 @@ Section Proofs.
   Definition cview (u : csub) : list (string * M) := fold_view (cstream u).
   Definition plain_sub (u : csub) : Prop := ro_include (cs_ro u) = None /\ ro_updates_only (cs_ro u) = false.
 
-  Lemma cview_snoc tid ro at_ evs e :
-    cview (mkCS tid ro at_ (evs ++ [e])) =
-    fold_left (@apply_change M) (c_forward_gen r_filter None false false ro [e]) (cview (mkCS tid ro at_ evs)).
+  Lemma cview_snoc tid ro at_ evs e sk :
+    cview (mkCS tid ro at_ (evs ++ [e]) sk) =
+    fold_left (@apply_change M) (c_forward_gen r_filter None false false ro [e]) (cview (mkCS tid ro at_ evs sk)).
   Proof.
     unfold cview, cstream, fold_view, pull_collection, pull_collection_gen. simpl cs_ro. simpl cs_at. simpl cs_evs.
     rewrite c_forward_app, app_assoc, fold_left_app. reflexivity.
   Qed.
 
-  Lemma cview_fresh tid ro (c : cstate) :
+  Lemma cview_fresh tid ro (c : cstate) sk :
     ro_updates_only ro = false -> sorted (c_items c) ->
-    view_inv ro (cview (mkCS tid ro c [])) (c_items c).
+    view_inv ro (cview (mkCS tid ro c [] sk)) (c_items c).
   Proof.
     intros UO Hs. unfold cview, cstream, fold_view, pull_collection, pull_collection_gen. simpl. rewrite UO, app_nil_r.
     apply (@seed_view_inv _ _ r_filter str_ltb ltb_irrefl ltb_trans ro _ Hs).
@@ -272,11 +272,17 @@ Section Proofs.
            | [t] => exists nv e lprev,
                       nth_error (st_pcs s) t = Some (PSavedC nv e) /\
                       describes e lprev (c_items (w_c (st_w s))) /\
+                      (* a subscriber whose snapshot was taken after that save already shows it and
+                         will not be sent it; the others are one event behind *)
                       forall u, In u (st_csubs s) -> plain_sub u ->
-                                view_inv (cs_ro u) (cview u) lprev \/
-                                view_inv (cs_ro u) (cview u) (c_items (w_c (st_w s)))
+                                if existsb (Nat.eqb t) (cs_skip u)
+                                then view_inv (cs_ro u) (cview u) (c_items (w_c (st_w s)))
+                                else view_inv (cs_ro u) (cview u) lprev
            | _ => False
-           end
+           end;
+    (* a snapshot is only ever ahead of threads that have committed *)
+    si_skip : forall u a, In u (st_csubs s) -> In a (cs_skip u) ->
+              exists p, nth_error (st_pcs s) a = Some p /\ (is_pc p = true \/ is_done p = true)
   }.
 
   Lemma sinv_init : SInv s0.
@@ -288,6 +294,7 @@ Section Proofs.
       destruct (nth_error prog t); inversion H; subst; discriminate.
     - intros _ u [].
     - intros _ u [].
+    - intros u a [].
   Qed.
 
   Lemma drop_tid_notin t l : ~ In t l -> drop_tid t l = l.
@@ -388,7 +395,14 @@ Section Proofs.
         destruct p' as [| | | nv e | |]; try discriminate. apply is_nil_false in Ho2. rewrite Ho2 in *. simpl.
         simpl in TC. exists nv, e, (c_items (w_c (st_w s))).
         rewrite nth_error_set_nth_same by exact Ht. split; [reflexivity|]. split; [exact TC|].
-        rewrite TE3. intros u Hu Hp. left. apply V; assumption.
+        rewrite TE3. intros u Hu Hp.
+        replace (existsb (Nat.eqb t) (cs_skip u)) with false; [apply V; assumption|].
+        symmetry. apply not_true_is_false. intros C. apply existsb_exists in C. destruct C as (a & Ha & Ea).
+        apply Nat.eqb_eq in Ea. subst a. destruct (si_skip SI _ _ Hu Ha) as (p0 & Q0 & S0).
+        rewrite Q in Q0. inversion Q0. subst p0.
+        destruct S0 as [S0|S0]; destruct p; try discriminate S0.
+        -- destruct TE2 as [_ C]. discriminate C.
+        -- destruct c; discriminate T.
       + destruct (is_pc p) eqn:PCp.
         * (* the publication of an Update *)
           destruct p as [| | | nv e | |]; try discriminate. destruct TE2 as [-> ->].
@@ -399,10 +413,11 @@ Section Proofs.
           assert (E2 : e0 = e) by (inversion Q0; reflexivity). rewrite E2 in D.
           unfold drop_tid. simpl. rewrite Nat.eqb_refl. simpl.
           intros u Hu Hp. apply in_map_iff in Hu. destruct Hu as (u0 & <- & Hu0).
-          destruct u0 as [tid ro at_ evs]. simpl in *. rewrite cview_snoc.
-          destruct (Hv _ Hu0 Hp) as [K|K].
-          -- eapply forward_one_keeps_inv; eauto.
-          -- eapply redeliver; eauto. apply Hp.
+          destruct u0 as [tid ro at_ evs sk]. simpl in *.
+          destruct (existsb (Nat.eqb t) sk) eqn:SK.
+          -- pose proof (Hv _ Hu0 Hp) as K. simpl in K. rewrite SK in K. exact K.
+          -- simpl in *. rewrite cview_snoc. pose proof (Hv _ Hu0 Hp) as K. simpl in K. rewrite SK in K.
+             eapply forward_one_keeps_inv; eauto.
         * assert (Hnin : ~ In t (st_pendc s)).
           { intros C. apply (si_pc SI) in C. destruct C as (p0 & Q0 & S0). rewrite Q in Q0. inversion Q0. subst. congruence. }
           rewrite (drop_tid_notin _ _ Hnin).
@@ -415,23 +430,29 @@ Section Proofs.
              assert (D : describes e (c_items (w_c (st_w s))) (c_items (w_c w'))).
              { destruct p'; try discriminate; exact TC. }
              intros u Hu Hp. apply in_map_iff in Hu. destruct Hu as (u0 & <- & Hu0).
-             destruct u0 as [tid ro at_ evs]. simpl in *. rewrite cview_snoc.
+             assert (SK : existsb (Nat.eqb t) (cs_skip u0) = false).
+             { apply not_true_is_false. intros C. apply existsb_exists in C. destruct C as (a & Ha & Ea).
+               apply Nat.eqb_eq in Ea. subst a. destruct (si_skip SI _ _ Hu0 Ha) as (p0 & Q0 & S0).
+               rewrite Q in Q0. inversion Q0. subst p0. destruct S0; discriminate. }
+             rewrite SK in *.
+             destruct u0 as [tid ro at_ evs sk]. simpl in *. rewrite cview_snoc.
              eapply forward_one_keeps_inv; [exact D|]. apply (V _ Hu0 Hp).
           -- (* a step that leaves the contents alone *)
              assert (Ec : c_items (w_c w') = c_items (w_c (st_w s))).
              { destruct p'; try discriminate; destruct p; try discriminate; destruct eff; try discriminate; exact TC. }
              rewrite Ec.
              assert (Esubs : forall u, In u (match eff with
-                                             | EPubC e => map (fun u => mkCS (cs_tid u) (cs_ro u) (cs_at u) (cs_evs u ++ [e])) (st_csubs s)
-                                             | ESubC ro => st_csubs s ++ [mkCS t ro (w_c (st_w s)) []]
+                                             | EPubC e => map (fun u => if existsb (Nat.eqb t) (cs_skip u) then u
+                                                                        else mkCS (cs_tid u) (cs_ro u) (cs_at u) (cs_evs u ++ [e]) (cs_skip u)) (st_csubs s)
+                                             | ESubC ro => st_csubs s ++ [mkCS t ro (w_c (st_w s)) [] (if ro_updates_only ro then [] else st_pendc s)]
                                              | _ => st_csubs s end) ->
-                                       In u (st_csubs s) \/ exists ro, u = mkCS t ro (w_c (st_w s)) []).
+                                       In u (st_csubs s) \/ exists ro, u = mkCS t ro (w_c (st_w s)) [] (if ro_updates_only ro then [] else st_pendc s)).
              { destruct eff; intros u Hu; auto.
                - destruct TE1 as [(nv & -> & _)|(seen & n & r & -> & _)]; discriminate.
                - apply in_app_or in Hu. destruct Hu as [Hu|[<-|[]]]; eauto. }
-             assert (Hfresh : forall ro, plain_sub (mkCS t ro (w_c (st_w s)) []) ->
-                                         view_inv ro (cview (mkCS t ro (w_c (st_w s)) [])) (c_items (w_c (st_w s)))).
-             { intros ro [_ UO]. apply cview_fresh; [exact UO|apply (i_sorted I)]. }
+             assert (Hfresh : forall ro sk, plain_sub (mkCS t ro (w_c (st_w s)) [] sk) ->
+                                         view_inv ro (cview (mkCS t ro (w_c (st_w s)) [] sk)) (c_items (w_c (st_w s)))).
+             { intros ro sk [_ UO]. apply cview_fresh; [exact UO|apply (i_sorted I)]. }
              destruct (st_pendc s) as [|a [|b r]]; [| |contradiction].
              ++ intros u Hu Hp. apply Esubs in Hu. destruct Hu as [Hu|(ro & ->)]; [apply V; assumption|].
                 apply Hfresh. exact Hp.
@@ -439,7 +460,27 @@ Section Proofs.
                 split; [rewrite nth_error_set_nth_other; [exact Q0|]; intros ->; apply Hnin; left; reflexivity|].
                 split; [exact D|].
                 intros u Hu Hp. apply Esubs in Hu. destruct Hu as [Hu|(ro & ->)]; [apply Hv; assumption|].
-                right. apply Hfresh. exact Hp.
+                pose proof (proj2 Hp) as UO. simpl in UO.
+                assert (Es : (if ro_updates_only ro then [] else [a]) = [a]) by (rewrite UO; reflexivity).
+                rewrite Es in *. simpl. rewrite Nat.eqb_refl. simpl. apply Hfresh. exact Hp.
+    - (* snapshots are ahead of committed threads only *)
+      intros u a Hu Ha.
+      assert (G : (exists u0, In u0 (st_csubs s) /\ In a (cs_skip u0)) \/ In a (st_pendc s)).
+      { destruct eff; try (left; exists u; split; assumption).
+        - apply in_map_iff in Hu. destruct Hu as (u0 & E & Hu0). left. exists u0. split; [exact Hu0|].
+          destruct (existsb (Nat.eqb t) (cs_skip u0)); subst u; exact Ha.
+        - apply in_app_or in Hu. destruct Hu as [Hu|[<-|[]]]; [left; exists u; split; assumption|].
+          simpl in Ha. destruct (ro_updates_only ro); [destruct Ha|right; exact Ha]. }
+      assert (G2 : exists p0, nth_error (st_pcs s) a = Some p0 /\ (is_pc p0 = true \/ is_done p0 = true)).
+      { destruct G as [(u0 & Hu0 & Ha0)|Hp]; [eapply si_skip; eauto|].
+        apply (si_pc SI) in Hp. destruct Hp as (p0 & Q0 & S0). eauto. }
+      destruct G2 as (p0 & Q0 & S0).
+      destruct (Nat.eq_dec t a) as [<-|Hne].
+      + rewrite nth_error_set_nth_same by exact Ht. exists p'. split; [reflexivity|].
+        rewrite Q in Q0. inversion Q0. subst p0. destruct S0 as [S0|S0].
+        * destruct p; try discriminate. destruct TE2 as [_ ->]. right. reflexivity.
+        * destruct p; try discriminate. destruct c; discriminate T.
+      + rewrite nth_error_set_nth_other by exact Hne. eauto.
   Qed.
 
   Lemma run_snoc' pre t : run (pre ++ [t]) s0 = step t (run pre s0).
